@@ -229,6 +229,8 @@ def register(PROPS, CLASSIFIERS, REPLAY_RUNNERS):
         from . import c13expand
         return c13expand.cls_width_runaway(prob, case, flavor)
     CLASSIFIERS["expansion-width-runaway"] = _c13expand_cls
+    # the same rule through `choose` (JSON machines): tied to the model's `St.expCut` (c13deep.py)
+    PROPS["C13"]["q_checks"].append(_lazy("c13deep", "c13_deep_choose_siblings"))
     PROPS["C13"].setdefault("lake_targets", []).append("driver_life")
 
     # ------------------------------------------------------------------ C14: stop() INSIDE a macrostep (directed, both engines; F72)
